@@ -14,9 +14,9 @@ from ..oracles import clt, eig
 def plan(tier):
     n = 96 if tier == 'quick' else 1600
     return dict(n_cases=n, shards=16, min_nontrivial=n // 3,
-                min_tags={'part:closed_form': n // 4, 'part:monotone': n // 4, 'solver:package': n // 8},
+                min_tags={'part:closed_form': n // 4, 'part:monotone': n // 4, 'solver:package': n // 8, 'lam:perply': n // 12},
                 watchdog_s=2400 if tier == 'quick' else 14000,
-                rule='(a) closed-form part: simply supported specially orthotropic plates (cross-ply / single-ply laminates with B=D16=D26=0 asserted on '
+                rule='(a) closed-form part: simply supported specially orthotropic plates (cross-ply / single-ply laminates, uniform or with per-ply thicknesses and materials mirrored about the mid-plane, with B=D16=D26=0 asserted on '
                      'the returned laminate), aspect ratios 0.2..5 incl. integers, compressive load ratios Nyy/Nxx in [0,3], orders m=n=6,8,..,16; '
                      '(b) monotonicity part: arbitrary laminates, all four models, restraint patterns with PD stiffness, random order increments in '
                      'either direction; non-trivial = sweep with >= 3 orders; distinct = hash of the description',
@@ -71,12 +71,25 @@ def case_closed(rng, tier):
     mu = gen.logu(rng, 1e2, 1e4)
     use_pkg = bool(rng.random() < 0.5)
     sparse = bool(rng.random() < 0.5)
-    c = Case({'part': 'closed_form', 'a': a, 'b': b, 'stack': stack, 'plyt': t, 'laminaprop': list(mat), 'kappa': kappa, 'mu': mu,
+    # per-ply form: thicknesses (and in some cases materials) differ from ply to ply, mirrored about the mid-plane so that the
+    # laminate stays specially orthotropic
+    nst = len(stack)
+    plyts = [t] * nst
+    mats = [mat] * nst
+    perply = nst >= 2 and rng.random() < 0.4
+    if perply:
+        fac = [float(gen.logu(rng, 0.3, 4)) for _ in range((nst + 1) // 2)]
+        plyts = [t * fac[min(i, nst - 1 - i)] for i in range(nst)]
+        if rng.random() < 0.4:
+            m2 = gen.material(rng, 6)
+            pick = [bool(rng.random() < 0.5) for _ in range((nst + 1) // 2)]
+            mats = [m2 if pick[min(i, nst - 1 - i)] else mat for i in range(nst)]
+    c = Case({'part': 'closed_form', 'a': a, 'b': b, 'stack': stack, 'plyts': plyts, 'laminaprops': [list(x) for x in mats], 'kappa': kappa, 'mu': mu,
               'package_solvers': use_pkg, 'sparse': sparse})
-    c.tag('part:closed_form', 'solver:package' if use_pkg else 'solver:reference')
-    F, _ = clt.ABD6(stack, [t] * len(stack), [mat] * len(stack), 0.)
+    c.tag('part:closed_form', 'solver:package' if use_pkg else 'solver:reference', 'lam:perply' if perply else 'lam:uniform')
+    F, _ = clt.ABD6(stack, plyts, mats, 0.)
     D = F[3:, 3:]
-    h = t * len(stack)
+    h = float(sum(plyts))
     Nex, Wex = closed_forms(a, b, D, kappa, mu, h)
     # reference load sub-critical (the package's sparse buckling path looks for multipliers next to 1)
     N0 = Nex[0][0] / float(rng.uniform(1.5, 20))
@@ -85,7 +98,11 @@ def case_closed(rng, tier):
     k = 4
     errsN = []; errsW = []
     for mn in orders:
-        p = Panel(a=a, b=b, m=mn, n=mn, stack=stack, plyt=t, laminaprop=tuple(mat), mu=mu)
+        if perply:
+            p = Panel(a=a, b=b, m=mn, n=mn, stack=stack, mu=mu)
+            p.plyts = list(plyts); p.laminaprops = [tuple(x) for x in mats]
+        else:
+            p = Panel(a=a, b=b, m=mn, n=mn, stack=stack, plyt=t, laminaprop=tuple(mat), mu=mu)
         p.Nxx = -N0; p.Nyy = -kappa * N0
         K = p.calc_k0(silent=True).toarray()
         G = p.calc_kG0(silent=True).toarray()
